@@ -619,6 +619,14 @@ def run_unit(pid, jobs, tier, seed=0, only=None):
                 res.undecided.append((job.name, "vacuity: no canary obligation generated"))
                 continue
             if any(o.status != "FAILURE" for o in canaries):
+                # the end of the harness is not reachable.  Nothing that "passed" counts -- but an obligation that FAILED
+                # has a counterexample, which vacuity cannot produce: those are reported
+                for o in rest:
+                    if o.status == "FAILURE" and "unwinding assertion" not in o.desc \
+                            and not any(p_ in ("*", pid, o.job[:3].upper()) and rx.search(o.key()) for (p_, rx, r_) in benign) \
+                            and not any(p_ == pid and rx.search(o.key()) for (p_, rx, t_) in known):
+                        res.obls.append(o)
+                        res.violations.append(o)
                 res.undecided.append((job.name, "vacuity: canary not reachable (preconditions contradictory or "
                                                 "the function cannot return)"))
                 continue
